@@ -496,6 +496,13 @@ func (P *Prog) predicateShape3(fn *ssa.Function, env map[ssa.Value]ssa.Value, na
 		sc.P, sc.names = P, names
 	}
 	sc.targs = targs
+	if sh.loop != nil {
+		if dom, elem, ok := P.flagLoop(sc, fn, sh.loop); ok {
+			sh.domain = dom
+			sh.paths = []predPath{{ret: elem, inLoop: true}}
+			return sh
+		}
+	}
 	spec := &pathSpec{name: "formula", inlineAll: true, symbolicLoopPhis: true}
 	spec.keep = func(f *ssa.Function) bool {
 		if f.Parent() != nil {
@@ -575,6 +582,130 @@ func (P *Prog) predicateShape3(fn *ssa.Function, env map[ssa.Value]ssa.Value, na
 	}
 	sh.problems = uniqSorted(sh.problems)
 	return sh
+}
+
+// flagLoop recognises the search loop written with a result flag instead of a return inside the loop:
+//
+//	found := false
+//	for i := 0; i < n && !found; i++ { found = E(i) }
+//	return found
+//
+// The loop stops at the first i with E(i), so the flag at the exit is "some i in [0, n) has E(i)" - the same formula
+// as `for i ... { if E(i) { return true } }; return false`. Demanded: the flag is a header phi that is false on entry
+// and E from the latch; the header chain leaves the loop exactly on the counter bound and on the flag being set; the
+// body is straight-line and writes nothing; the function's only return returns the flag.
+func (P *Prog) flagLoop(sc *symCtx, fn *ssa.Function, l *natLoop) (string, string, bool) {
+	h := l.header
+	var flag *ssa.Phi
+	var latchVal ssa.Value
+	for _, in := range h.Instrs {
+		ph, ok := in.(*ssa.Phi)
+		if !ok {
+			break
+		}
+		if b, isB := ph.Type().Underlying().(*types.Basic); !isB || b.Kind() != types.Bool || len(ph.Edges) != 2 {
+			continue
+		}
+		var inner ssa.Value
+		okEntry := false
+		for i, e := range ph.Edges {
+			if l.body[h.Preds[i]] {
+				inner = e
+			} else if c, isC := e.(*ssa.Const); isC && c.Value != nil && c.Value.Kind() == constant.Bool && !constant.BoolVal(c.Value) {
+				okEntry = true
+			}
+		}
+		if okEntry && inner != nil {
+			if flag != nil {
+				return "", "", false
+			}
+			flag, latchVal = ph, inner
+		}
+	}
+	if flag == nil {
+		return "", "", false
+	}
+	// the header chain: Ifs with one successor outside the loop
+	dom, sawFlag := "", false
+	b := h
+	chain := map[*ssa.BasicBlock]bool{}
+	var body *ssa.BasicBlock
+	for steps := 0; steps < 4; steps++ {
+		chain[b] = true
+		if b != h {
+			for _, in := range b.Instrs[:len(b.Instrs)-1] {
+				if _, isDbg := in.(*ssa.DebugRef); !isDbg {
+					return "", "", false
+				}
+			}
+		}
+		iff, ok := b.Instrs[len(b.Instrs)-1].(*ssa.If)
+		if !ok {
+			return "", "", false
+		}
+		tIn, fIn := l.body[b.Succs[0]], l.body[b.Succs[1]]
+		if tIn == fIn {
+			return "", "", false
+		}
+		next := b.Succs[0]
+		if fIn {
+			next = b.Succs[1]
+		}
+		switch {
+		case iff.Cond == ssa.Value(flag) && fIn: // if found { leave }
+			sawFlag = true
+		case isNotOf(iff.Cond, flag) && tIn: // if !found { continue }
+			sawFlag = true
+		default:
+			if dom != "" || !tIn {
+				return "", "", false
+			}
+			dom = P.loopDomain(sc, l, iff)
+			if !strings.HasPrefix(dom, "i in [0, ") {
+				return "", "", false
+			}
+		}
+		if sawFlag && dom != "" {
+			body = next
+			break
+		}
+		b = next
+	}
+	if body == nil || !sawFlag || dom == "" {
+		return "", "", false
+	}
+	// straight-line body back to the header, nothing written
+	for bb := range l.body {
+		if chain[bb] {
+			continue
+		}
+		for _, in := range bb.Instrs {
+			switch in.(type) {
+			case *ssa.Store, *ssa.MapUpdate, *ssa.Send, *ssa.Go, *ssa.Defer, *ssa.If, *ssa.Panic, *ssa.Return:
+				return "", "", false
+			}
+		}
+	}
+	// the only return of the function returns the flag
+	nRet := 0
+	okRet := true
+	eachInstr(fn, func(_ *ssa.BasicBlock, _ int, in ssa.Instruction) {
+		if rt, isRet := in.(*ssa.Return); isRet {
+			nRet++
+			if len(rt.Results) != 1 || cv(rt.Results[0]) != ssa.Value(flag) {
+				okRet = false
+			}
+		}
+	})
+	if nRet != 1 || !okRet {
+		return "", "", false
+	}
+	return dom, sc.sym(latchVal, 0), true
+}
+
+func isNotOf(v ssa.Value, x ssa.Value) bool {
+	u, ok := v.(*ssa.UnOp)
+	return ok && u.Op == token.NOT && u.X == x
 }
 
 func (P *Prog) loopDomain(sc *symCtx, l *natLoop, iff *ssa.If) string {
